@@ -64,6 +64,11 @@ func findDirectiveFolds(content string) []protocol.FoldingRange {
 		if !isDirectiveLine(line) {
 			continue
 		}
+		// an indented line belongs to the entry above it, it does not start a
+		// directive (and scanning on from each of them is quadratic)
+		if strings.HasPrefix(line, " ") || strings.HasPrefix(line, "\t") {
+			continue
+		}
 
 		startLine := i
 		endLine := i
